@@ -139,7 +139,7 @@ def oracle_strings(ctx, r, c, fail):
         if not s_herm(e):
             fail("edge:not-hermitian", d)
         if E[(b, a)] != s_neg(e):
-            fail("edge:E_ji-is-not-minus-E_ij", d, "E_ji = -E_ij", "%r vs %r" % (E[(b, a)], e))
+            fail("edge:E_ji-is-not-minus-E_ij", d, "E_ji = -E_ij", "E_ji = %r, E_ij = %r" % (E[(b, a)], e))
         if s_mul(e, e) != s_ident(n):
             fail("edge:not-involution", d)
         for v in verts:
@@ -207,6 +207,9 @@ def oracle_dense(ctx, r, c, hs, fail):
     import qib
     from qib.transform.compact_encoding import _encode_edge_operator, compact_encode_field_operator
     inp = {"kind": "enc", "shape": [r, c], "hs": [np.asarray(h).tolist() for h in hs]}
+    # the reference spectrum comes from a separately built operator, computed before the encoder runs
+    H0, _ = fermi_operator(r, c, hs)
+    ref = np.linalg.eigvalsh(H0.as_matrix().toarray())
     H, latt = fermi_operator(r, c, hs)
     Henc, le = compact_encode_field_operator(H)
     n = le.nsites
@@ -243,7 +246,6 @@ def oracle_dense(ctx, r, c, hs, fail):
         P = P @ (0.5 * (L + I))
     dimc = int(round(P.diagonal().sum().real))
     N = r * c
-    ref = np.linalg.eigvalsh(H.as_matrix().toarray())
     if dimc == 0 or dimc % (2 ** N) != 0:
         fail("spectrum:code-space-dimension-not-a-multiple-of-fock-dimension", inp, "k * 2^%d" % N, dimc)
         return
@@ -286,6 +288,220 @@ def oracle_int_dtype(ctx, r, c, hint, fail, loops=None):
         fail("encoder:integer-dtype-result-differs-from-float-dtype", inp)
 
 
+# ------------------------------------------------------------------------------- canonical forms of the result
+def canon_sum(op):
+    """the encoded operator as {letters: coefficient} with the phase of every string folded into its
+    coefficient, equal strings summed, exact zeros dropped (= the matrix, since Pauli strings are a basis).
+    Exact on dyadic data."""
+    out = {}
+    for w in op.pstrings:
+        k, letters = s_of(w.paulis)
+        out[letters] = out.get(letters, 0) + complex(w.weight) * (1j ** k)
+    return {k: v for k, v in out.items() if v != 0}
+
+
+def canon_add(a, b):
+    out = dict(a)
+    for k, v in b.items():
+        out[k] = out.get(k, 0) + v
+    return {k: v for k, v in out.items() if v != 0}
+
+
+def raw_list(op):
+    """the result exactly as returned: ordered list of (z, x, q mod 4, re, im)"""
+    return [["".join(str(int(b)) for b in w.paulis.z), "".join(str(int(b)) for b in w.paulis.x),
+             int(w.paulis.q) % 4, float(complex(w.weight).real), float(complex(w.weight).imag)] for w in op.pstrings]
+
+
+def canon_diff(a, b):
+    keys = [k for k in set(a) | set(b) if a.get(k, 0) != b.get(k, 0)]
+    keys.sort()
+    return "; ".join("%s: %s vs %s" % ("".join(k), a.get(k, 0), b.get(k, 0)) for k in keys[:3])
+
+
+def oracle_closed_form(ctx, r, c, hs, op, fail):
+    """the result, as a matrix, is  sum_terms [ sum_i h_ii 1/2 (1 - V_i) + sum_{i<j} h_ij (i/2) (E_ij V_j - E_ij V_i) ]
+    with E, V the implementation's edge / vertex strings (which oracle_strings checks against the relation set
+    R separately) and the products taken with the independent algebra above.  Exact, any shape."""
+    import qib
+    from qib.transform.compact_encoding import _encode_edge_operator, _encode_vertex_operator
+    inp = {"kind": "enc", "shape": [r, c], "hs": [np.asarray(h).tolist() for h in hs]}
+    latt = qib.lattice.OddFaceCenteredLattice((r, c), pbc=False)
+    n = latt.nsites
+    want = {}
+
+    def acc(sv, coeff):
+        k, letters = sv
+        want[letters] = want.get(letters, 0) + coeff * (1j ** k)
+    N = r * c
+    if any(h[i][j] != 0 and not grid_adjacent(c, i, j) for h in hs for i in range(N) for j in range(i + 1, N)):
+        return      # not an admissible operator (hopping beyond nearest neighbours): nothing is claimed
+    try:
+        V = [s_of(_encode_vertex_operator(latt, (i // c, i % c))) for i in range(N)]
+        for h in hs:
+            for i in range(N):
+                if h[i][i] != 0:
+                    acc(s_ident(n), 0.5 * h[i][i])
+                    acc(V[i], -0.5 * h[i][i])
+                for j in range(i + 1, N):
+                    if h[i][j] != 0:
+                        E = s_of(_encode_edge_operator(latt, (i // c, i % c), (j // c, j % c)))
+                        acc(s_mul(E, V[j]), 0.5j * h[i][j])
+                        acc(s_mul(E, V[i]), -0.5j * h[i][j])
+    except Exception as e:
+        fail("edge:exception", dict(inp, kind="enc"), "E_ij, V_j defined for every nearest-neighbour pair", repr(e))
+        return
+    want = {k: v for k, v in want.items() if v != 0}
+    got = canon_sum(op)
+    if got != want:
+        fail("encoded:differs-from-the-closed-form-sum-over-vertex-and-edge-operators", inp,
+             "sum_i h_ii/2 (1 - V_i) + sum_{i<j} h_ij (i/2)(E_ij V_j - E_ij V_i)", canon_diff(got, want))
+
+
+def oracle_additive(ctx, r, c, hs, fail):
+    """closed form (theorem C13_closed_form) is linear in h and a sum over the terms:
+       encode([h1..hk]) = encode([h1]) + .. + encode([hk]) = encode([h1 + .. + hk])   as matrices,
+    for every order of the terms.  Exact (dyadic data), any shape."""
+    from qib.transform.compact_encoding import compact_encode_field_operator
+    inp = {"kind": "enc-multi", "shape": [r, c], "hs": [np.asarray(h).tolist() for h in hs]}
+
+    def enc(hlist):
+        H, _ = fermi_operator(r, c, hlist)
+        return canon_sum(compact_encode_field_operator(H)[0])
+    try:
+        whole = enc(hs)
+        parts = {}
+        for h in hs:
+            parts = canon_add(parts, enc([h]))
+        total = np.zeros((r * c, r * c))
+        for h in hs:
+            total = total + np.asarray(h, dtype=float)
+        merged = enc([total.tolist()])
+        rev = enc(list(reversed(hs)))
+        rot = enc(list(hs[1:]) + list(hs[:1]))
+    except Exception as e:
+        fail("encoder:crash:" + type(e).__name__, inp, "operator", repr(e))
+        return
+    if whole != parts:
+        fail("encoder:multi-term-result-is-not-the-sum-of-the-single-term-results", inp,
+             "encode([h1..hk]) == sum_k encode([hk]) as matrices", canon_diff(whole, parts))
+    if whole != merged:
+        fail("encoder:multi-term-result-differs-from-encoding-of-the-summed-coefficients", inp,
+             "encode([h1..hk]) == encode([h1+..+hk]) as matrices", canon_diff(whole, merged))
+    if whole != rev or whole != rot:
+        fail("encoder:result-depends-on-the-order-of-the-terms", inp, "same matrix for every term order",
+             canon_diff(whole, rev) or canon_diff(whole, rot))
+
+
+def oracle_strings_stable(ctx, r, c, fail):
+    """E_ij, V_j (hence the relation set and the loop products) are the same before and after encoder calls on
+    that shape, and the relation/loop oracle still passes afterwards"""
+    import qib
+    from qib.transform.compact_encoding import (_encode_edge_operator, _encode_vertex_operator,
+                                                compact_encode_field_operator)
+    inp = {"kind": "shape-stable", "shape": [r, c]}
+    verts = [(x, y) for x in range(r) for y in range(c)]
+    edges = [(a, b) for a in verts for b in verts if abs(a[0] - b[0]) + abs(a[1] - b[1]) == 1]
+
+    def strings():
+        latt = qib.lattice.OddFaceCenteredLattice((r, c), pbc=False)
+        return ([s_of(_encode_vertex_operator(latt, v)) for v in verts],
+                [s_of(_encode_edge_operator(latt, a, b)) for (a, b) in edges])
+    try:
+        before = strings()
+        N = r * c
+        h = [[(0.5 if i == j else (1.0 if grid_adjacent(c, i, j) else 0.0)) for j in range(N)] for i in range(N)]
+        for hs in ([h], [h, h]):
+            H, _ = fermi_operator(r, c, hs)
+            compact_encode_field_operator(H)
+        after = strings()
+    except Exception as e:
+        fail("encoder:crash:" + type(e).__name__, inp, "operator", repr(e))
+        return
+    if before != after:
+        k = [i for i, (u, v) in enumerate(zip(before[1], after[1])) if u != v]
+        fail("edge:operators-change-after-encoder-calls", dict(inp, edge=[list(x) for x in edges[k[0]]] if k else None),
+             "the same E_ij and V_j before and after compact_encode_field_operator", "different strings")
+    oracle_strings(ctx, r, c, lambda sig, i, e=None, o=None: fail(sig + ":after-encoder-calls", dict(i, kind="shape-stable"), e, o))
+
+
+def snapshot_terms(H):
+    return [(t.coeffs.dtype.str, t.coeffs.shape, t.coeffs.tobytes(), len(t.opdesc)) for t in H.terms]
+
+
+_FRESH = r"""
+import sys, json
+import numpy as np
+import qib
+from qib.transform.compact_encoding import compact_encode_field_operator
+r, c, hs = json.loads(sys.argv[1])
+latt = qib.lattice.IntegerLattice((r, c), pbc=False)
+field = qib.field.Field(qib.field.ParticleType.FERMION, latt)
+terms = [qib.operator.FieldOperatorTerm(
+    [qib.operator.IFODesc(field, qib.operator.IFOType.FERMI_CREATE),
+     qib.operator.IFODesc(field, qib.operator.IFOType.FERMI_ANNIHIL)], np.array(h, dtype=float)) for h in hs]
+op, le = compact_encode_field_operator(qib.operator.FieldOperator(terms))
+print("RESULT" + json.dumps([le.nsites, [["".join(str(int(b)) for b in w.paulis.z), "".join(str(int(b)) for b in w.paulis.x),
+      int(w.paulis.q) % 4, float(complex(w.weight).real), float(complex(w.weight).imag)] for w in op.pstrings]]))
+"""
+
+
+def fresh_results(ops):
+    """encode every (r, c, hs) of `ops` in its own fresh interpreter (first call of that process)"""
+    import subprocess, json
+    from vlib.core import REPO
+    env = dict(os.environ)
+    env["PYTHONPATH"] = os.path.join(REPO, "src")
+    procs = [subprocess.Popen([sys.executable, "-B", "-c", _FRESH, json.dumps(o)], env=env, stdout=subprocess.PIPE,
+                              stderr=subprocess.PIPE, text=True) for o in ops]
+    out = []
+    for p in procs:
+        so, se = p.communicate(timeout=300)
+        line = [l for l in so.splitlines() if l.startswith("RESULT")]
+        out.append(json.loads(line[0][6:]) if p.returncode == 0 and line else ("error", se[-400:]))
+    return out
+
+
+def oracle_history(ctx, ops, schedule, fail):
+    """a call of the encoder gives the result a fresh interpreter gives for the same operator, whatever was
+    encoded before in this process (same shape, other shapes), and whatever the caller did to earlier results;
+    it leaves its operand unchanged.  Exact comparison of the returned list (strings, phases, weights, order)."""
+    from qib.transform.compact_encoding import compact_encode_field_operator, _encode_edge_operator
+    ref = fresh_results(ops)
+    base = {"kind": "history", "ops": [[r, c, [np.asarray(h).tolist() for h in hs]] for (r, c, hs) in ops]}
+    for k, o in enumerate(ref):
+        if isinstance(o, tuple):
+            fail("encoder:fails-in-a-fresh-interpreter", dict(base, schedule=[k]), "an encoded operator", o[1])
+            return
+    for pos, k in enumerate(schedule):
+        r, c, hs = ops[k]
+        # the whole schedule is recorded: every operator occurs several times in it, so the replay (a new
+        # process) reproduces a dependence on earlier calls even when here the first call already differed
+        inp = dict(base, schedule=list(schedule))
+        try:
+            H, _ = fermi_operator(r, c, hs)
+            snap = snapshot_terms(H)
+            op, le = compact_encode_field_operator(H)
+            got = [le.nsites, raw_list(op)]
+        except Exception as e:
+            fail("encoder:crash:" + type(e).__name__, inp, "operator", repr(e))
+            return
+        if snapshot_terms(H) != snap:
+            fail("encoder:modifies-its-operand", inp, "coefficient arrays unchanged")
+        if got != ref[k]:
+            fail("encoder:result-depends-on-what-was-encoded-before", inp,
+                 "the result of the first call in a fresh interpreter", "a call for operator %d (shape %dx%d) differs" % (k, r, c))
+            return
+        # the caller owns the result: scribbling over it must not leak into later calls
+        for w in op.pstrings:
+            w.weight = w.weight * 3 + 1
+            w.paulis.q = (int(w.paulis.q) + 1) % 4
+            w.paulis.z[:] = 1 - w.paulis.z
+        for t in H.terms:
+            t.coeffs[...] = 7.0
+        ctx.count("history_calls")
+
+
 # ------------------------------------------------------------------------------- input generation
 VALS = [1, -1, 2, -2, 0.5, -0.5, 1.5, 3, -3, 0.25, -0.75]
 
@@ -312,6 +528,64 @@ def rand_h(rng, r, c, kind):
         i, j = rng.choice(nn)
         h[j][i] = h[i][j] + 1.0
     return h
+
+
+MULTI_KINDS = ["onsite+hop", "hop+onsite", "repeat", "zero-first", "zero-last", "zero-mid", "split2", "split3",
+               "split4", "cancel", "trace-first"]
+
+
+def zeros(N):
+    return [[0.0] * N for _ in range(N)]
+
+
+def split_terms(rng, r, c, kind):
+    """2-4 coefficient matrices (each real symmetric, diagonal + nearest-neighbour, dyadic entries)"""
+    N = r * c
+    h = rand_h(rng, r, c, "nn")
+    D = [[h[i][j] if i == j else 0.0 for j in range(N)] for i in range(N)]
+    T = [[h[i][j] if i != j else 0.0 for j in range(N)] for i in range(N)]
+    if kind == "onsite+hop":
+        return [D, T]
+    if kind == "hop+onsite":
+        return [T, D]
+    if kind == "repeat":
+        return [h, [row[:] for row in h]] + ([[row[:] for row in h]] if rng.random() < 0.3 else [])
+    if kind == "zero-first":
+        return [zeros(N), h]
+    if kind == "zero-last":
+        return [h, zeros(N)]
+    if kind == "zero-mid":
+        return [D, zeros(N), T]
+    if kind == "cancel":
+        return [h, [[-v for v in row] for row in h]]
+    if kind == "trace-first":
+        # a first term with non-zero trace and no hopping, then terms without diagonal
+        D1 = zeros(N)
+        for i in range(N):
+            D1[i][i] = float(rng.choice([1, 2, -3, 0.5]))
+        return [D1, T] + ([rand_h(rng, r, c, "hop-only")] if rng.random() < 0.5 else [])
+    k = {"split2": 2, "split3": 3, "split4": 4}[kind]
+    parts = [zeros(N) for _ in range(k)]
+    for i in range(N):
+        for j in range(i, N):
+            v = h[i][j]
+            if v == 0:
+                continue
+            mode = rng.random()
+            if mode < 0.6:                     # the whole entry goes to one term
+                shares = {rng.randrange(k): v}
+            elif mode < 0.9:                   # split into two dyadic parts
+                a, b = rng.sample(range(k), 2)
+                u = float(rng.choice([0.25, 0.5, -1, 2]))
+                shares = {a: u, b: v - u}
+            else:                              # every term gets a share
+                u = float(rng.choice([0.5, -0.25, 1]))
+                shares = {t: u for t in range(1, k)}
+                shares[0] = v - u * (k - 1)
+            for t, u in shares.items():
+                parts[t][i][j] = parts[t][j][i] = u
+    rng.shuffle(parts)
+    return parts
 
 
 def shapes(maxq=None):
@@ -346,7 +620,15 @@ def run(ctx):
     ctx.rules.append(
         "all shapes r x c with r,c<=5, r*c<=20 (incl. 1xN, Nx1, 1x1): every index / coordinate / edge / vertex query in a "
         "one-cell margin around the lattice, both edge directions, and encoder runs on dyadic symmetric h (zeros, "
-        "diagonal only, hopping only, two terms, far hopping -> ValueError, asymmetric -> ValueError). "
+        "diagonal only, hopping only, two terms, far hopping -> ValueError, asymmetric -> ValueError; multi-term operators "
+        "with 2-4 terms: on-site and hopping as separate terms in both orders, random splits of every entry over the "
+        "terms, repeated terms, zero terms first/middle/last, h and -h, a first term with non-zero trace). "
+        "Oracles on every encoder result: string-level Hermiticity / loop commutation, exact closed-form sum over the "
+        "implementation's V_i, E_ij, additivity over terms / term order (exact), operand snapshot; dense spectrum "
+        "oracle (<= 10 qubits quick, <= 12 thorough) on single- and multi-term operators; larger shapes up to 7x7, 6x8, "
+        "2x9 (thorough 9x9) with the string-level oracles only; history oracle: a schedule of repeated encoder calls on "
+        "the same and on other shapes compared with the result of a fresh interpreter per operator, results and "
+        "operands scribbled over between calls. "
         "non-trivial = encoder case with at least one non-zero hopping entry, or an edge/face query on a lattice with a face")
     ctx.lib(["Compact/CompactCheck", "Compact/CompactProofs", "Compact/CompactBounded"])
     ok_tr = ctx.translate("GenCompact", gen_compact.generate)
@@ -428,18 +710,27 @@ def run(ctx):
     # ---------------------------------------------------------------- encoder runs
     kinds = ["nn", "nn", "diag", "hop-only", "zero", "far", "asym", "two-terms"]
     if ctx.thorough:
-        kinds = kinds + ["nn"] * 6 + ["two-terms", "far", "hop-only"]
+        kinds = kinds + ["nn"] * 6 + ["two-terms", "far", "hop-only"] + MULTI_KINDS * 2
     for (r, c) in shapes():
-        for kind in kinds:
+        # multi-term operators: every kind on the small shapes, a rotating selection of 4 on the others
+        off = rng.randrange(len(MULTI_KINDS))
+        multi = MULTI_KINDS if r * c <= 6 else [MULTI_KINDS[(off + 3 * t) % len(MULTI_KINDS)] for t in range(4)]
+        for kind in kinds + list(multi):
             if kind == "two-terms":
                 hs = [rand_h(rng, r, c, "nn"), rand_h(rng, r, c, "nn")]
+            elif kind in MULTI_KINDS:
+                hs = split_terms(rng, r, c, kind)
             else:
                 hs = [rand_h(rng, r, c, kind)]
             desc = {"kind": "enc", "shape": [r, c], "hs": hs}
             ctx.count("enc_%s" % kind)
             try:
                 H, _ = fermi_operator(r, c, hs)
+                snap = snapshot_terms(H)
                 op, le = compact_encode_field_operator(H)
+                if snapshot_terms(H) != snap:
+                    fail("encoder:modifies-its-operand", {"kind": "operand", "shape": [r, c], "hs": hs},
+                         "coefficient arrays unchanged")
                 res = ct.opt(ct.lst([ct.pair(p3_of(w.paulis), ct.qi(w.weight)) for w in op.pstrings]))
                 ctx.count("enc_ok")
             except ValueError:
@@ -456,6 +747,38 @@ def run(ctx):
                 fail("encoder:refuses-admissible-operator", desc, "an encoded operator", "exception")
             if op is not None and loops_of.get((r, c)) is not None:
                 oracle_encoded_strings(ctx, r, c, hs, op, loops_of[(r, c)], fail)
+            if op is not None:
+                oracle_closed_form(ctx, r, c, hs, op, fail)
+            if op is not None and len(hs) >= 2:
+                oracle_additive(ctx, r, c, hs, fail)
+                ctx.count("additive_oracle")
+
+    # ---------------------------------------------------------------- larger shapes: oracles only (no model run)
+    big = [(5, 5), (5, 6), (6, 5), (6, 6), (7, 7), (6, 8), (9, 2), (2, 9), (1, 9), (9, 1)]
+    if ctx.thorough:
+        big += [(8, 8), (7, 3), (3, 7), (10, 3), (3, 10), (7, 8), (8, 7), (9, 9)]
+    t_big = time.time()
+    for (r, c) in big:
+        loops = oracle_strings(ctx, r, c, fail)
+        ctx.count("shape_oracle_big")
+        for kind in ["nn", "trace-first", "split3"]:
+            hs = split_terms(rng, r, c, kind) if kind in MULTI_KINDS else [rand_h(rng, r, c, kind)]
+            desc = {"kind": "enc", "shape": [r, c], "hs": hs}
+            try:
+                H, _ = fermi_operator(r, c, hs)
+                op, le = compact_encode_field_operator(H)
+            except Exception as e:
+                fail("encoder:refuses-admissible-operator" if isinstance(e, ValueError) else "encoder:crash:" + type(e).__name__,
+                     desc, "an encoded operator", repr(e))
+                continue
+            ctx.count("enc_big")
+            ctx.nontriv(("big", r, c, kind))
+            if loops is not None:
+                oracle_encoded_strings(ctx, r, c, hs, op, loops, fail)
+            oracle_closed_form(ctx, r, c, hs, op, fail)
+            if len(hs) >= 2:
+                oracle_additive(ctx, r, c, hs, fail)
+    ctx.log("big shapes %.1fs" % (time.time() - t_big))
 
     # ---------------------------------------------------------------- integer-dtype coefficient matrices
     for (r, c) in [(1, 2), (2, 3), (3, 2)]:
@@ -472,11 +795,18 @@ def run(ctx):
         if nq > qmax and not ((r, c) == (3, 3)):
             continue
         reps = (4 if nq <= 10 else 1) if ctx.thorough else (2 if nq <= 8 else 1)
-        for k in range(reps):
-            hs = [rand_h(rng, r, c, "nn" if k != 1 else "hop-only")]
-            if k == 3:
+        plan = ["nn" if k != 1 else "hop-only" for k in range(reps)]
+        # multi-term operators (on-site and hopping handed over as separate terms, split, repeated, zero terms)
+        if ctx.thorough:
+            plan += MULTI_KINDS if nq <= 10 else ["trace-first", "split3"]
+        else:
+            plan += (["trace-first", "onsite+hop", "split3", "repeat"] if nq <= 8 else ["trace-first"])
+        for k, kind in enumerate(plan):
+            hs = split_terms(rng, r, c, kind) if kind in MULTI_KINDS else [rand_h(rng, r, c, kind)]
+            if k == 3 and kind == "nn":
                 hs.append(rand_h(rng, r, c, "nn"))
             ctx.count("dense_nq=%d" % nq)
+            ctx.count("dense_terms=%d" % len(hs))
             try:
                 oracle_dense(ctx, r, c, hs, fail)
             except Exception as e:
@@ -484,6 +814,29 @@ def run(ctx):
                      "operator", repr(e))
             ctx.nontriv(("dense", r, c, k))
     ctx.log("dense oracle %.1fs" % (time.time() - t_dense))
+
+    # ---------------------------------------------------------------- history: repeated calls vs a fresh interpreter
+    t_hist = time.time()
+    hshapes = [(2, 2), (2, 3), (3, 2), (3, 3), (1, 3), (4, 2)] + ([(3, 4), (4, 4), (2, 5), (5, 1)] if ctx.thorough else [])
+    ops = []
+    for (r, c) in hshapes:
+        ops.append((r, c, [rand_h(rng, r, c, "nn")]))
+    ops.append((2, 2, split_terms(rng, 2, 2, "trace-first")))
+    ops.append((3, 3, split_terms(rng, 3, 3, "split3")))
+    ops.append((2, 3, [rand_h(rng, 2, 3, "hop-only")]))
+    order = list(range(len(ops)))
+    schedule = order + order[::-1]
+    for _ in range(3 if ctx.thorough else 1):
+        extra = order[:]
+        rng.shuffle(extra)
+        schedule += extra
+    schedule += [0, 0, 0]
+    oracle_history(ctx, ops, schedule, fail)
+    ctx.nontriv(("history", len(schedule)))
+    # the edge / vertex strings do not change when the encoder runs in between
+    for (r, c) in [(2, 2), (3, 3), (2, 5), (4, 4)]:
+        oracle_strings_stable(ctx, r, c, fail)
+    ctx.log("history oracle %.1fs" % (time.time() - t_hist))
 
     dis = ctx.cases("compact", HEADER, cases)
     for i, d in dis[:5]:
@@ -498,8 +851,13 @@ def replay(ctx, data):
     def fail(s, i, expected=None, observed=None):
         hits.append(s)
 
-    r, c = inp["shape"]
     kind = inp.get("kind")
+    if kind == "history":
+        oracle_history(ctx, [tuple(o) for o in inp["ops"]], inp["schedule"], fail)
+        if sig in hits:
+            ctx.fail(sig, inp, data.get("expected"), "still fails")
+        return
+    r, c = inp["shape"]
     if kind == "index":
         import qib
         latt = qib.lattice.OddFaceCenteredLattice((r, c), pbc=False)
@@ -512,16 +870,35 @@ def replay(ctx, data):
         oracle_strings(ctx, r, c, fail)
     elif kind == "enc-int":
         oracle_int_dtype(ctx, r, c, inp["hs"][0], fail)
+    elif kind == "shape-stable":
+        oracle_strings_stable(ctx, r, c, fail)
+    elif kind == "enc-multi":
+        oracle_additive(ctx, r, c, inp["hs"], fail)
+    elif kind == "operand":
+        from qib.transform.compact_encoding import compact_encode_field_operator
+        H, _ = fermi_operator(r, c, inp["hs"])
+        snap = snapshot_terms(H)
+        try:
+            compact_encode_field_operator(H)
+        except Exception:
+            pass
+        if snapshot_terms(H) != snap:
+            hits.append(sig)
     elif kind == "enc":
         from qib.transform.compact_encoding import compact_encode_field_operator
         hs = inp["hs"]
-        loops = oracle_strings(ctx, r, c, fail)
+        # the oracle that recorded the failure runs first: in a new process it then sees the encoder's first call
+        dense_sig = sig.startswith(("spectrum:", "loop:matrix", "loops:matrices", "encoded:matrix", "encoded:wrong-dimension"))
         try:
+            if dense_sig and nqubits(r, c) <= 12:
+                oracle_dense(ctx, r, c, hs, fail)
             H, _ = fermi_operator(r, c, hs)
             op, le = compact_encode_field_operator(H)
+            oracle_closed_form(ctx, r, c, hs, op, fail)
+            loops = oracle_strings(ctx, r, c, fail)
             if loops is not None:
                 oracle_encoded_strings(ctx, r, c, hs, op, loops, fail)
-            if nqubits(r, c) <= 12:
+            if not dense_sig and nqubits(r, c) <= 12:
                 oracle_dense(ctx, r, c, hs, fail)
         except Exception as e:
             hits.append("encoder:crash:" + type(e).__name__)
